@@ -33,7 +33,7 @@ TAG_TOKENS = TOKENS + ["{{ v }}", "{{ w }}"]
 
 COUNTS: list[Any] = [0, 1, 2, 5, -1, "2"]  # None = the count argument is absent
 CTX = "ctx"
-VAL_V = "V%(w)s"  # a value that looks like a placeholder: substitution is one pass
+VAL_V = "V%(w)s%%"  # a value that looks like message syntax: it must appear verbatim (one pass)
 VAL_W = 7
 OUTER_SHADOWED = {"v": "O1", "w": "O2"}
 
@@ -292,9 +292,6 @@ def excluded(case: dict[str, Any]) -> Optional[str]:
     if case["kind"] != "filter":
         return None
     texts = [case["s"]] + ([case["p"]] if case["p"] is not None else [])
-    if any("%%" in t for t in texts):
-        # printf unescaping of the %% digraph vs. "unchanged": not settled for filter messages
-        return "filter-message-with-%%-digraph"
     if case["autoescape"] and case["form"] == "var" and any("<" in t for t in texts):
         # a message taken from render data containing markup under autoescape: "text unchanged"
         # (C26) and "render data is escaped" (C05) pull in opposite directions
@@ -312,9 +309,10 @@ def check_case(case: dict[str, Any]) -> tuple[str, Optional[dict[str, Any]], Any
     if p is not None and count is not None:
         other = s if plural_chosen else p
     if kind == "filter":
-        wants = {"[" + ref.format_filter(chosen, refvars) + "]"}
-        wants_other = {"[" + ref.format_filter(other, refvars) + "]"} if other is not None else set()
-        flags = ("%" if ref.has_bare_percent(chosen) else "") + ("v" if ref.has_placeholder(chosen) else "")
+        wants = {"[" + e + "]" for e in ref.format_filter(chosen, refvars)}
+        wants_other = {"[" + e + "]" for e in ref.format_filter(other, refvars)} if other is not None else set()
+        flags = (("%" if ref.has_bare_percent(chosen) else "") + ("v" if ref.has_placeholder(chosen) else "")
+                 + ("2" if ref.has_percent_digraph(chosen) else ""))
     else:
         wants = {"[" + e + "]" for e in ref.format_tag(chosen, refvars)}
         wants_other = {"[" + e + "]" for e in ref.format_tag(other, refvars)} if other is not None else set()
@@ -335,6 +333,8 @@ def check_case(case: dict[str, Any]) -> tuple[str, Optional[dict[str, Any]], Any
         if t is None:
             return None
         if kind == "filter":
+            if ref.has_percent_digraph(t):
+                return "percent-digraph"
             return "literal-percent" if ref.has_bare_percent(t) else None
         return "percent-before-placeholder" if "%{{" in t else None
 
@@ -375,15 +375,16 @@ class C26(Check):
         "StrictUndefined when it has no placeholder), in t with a count but no plural, and as the singular and as "
         "the plural of a pair in t, t+context, ngettext, npgettext and {% translate %}{% plural %} for every "
         "count in {absent,0,1,2,5,-1,'2'}. Oracle = mc/ref/c26_model.py (form chosen by calling "
-        "gettext.NullTranslations.ngettext; one-pass %(name)s / {{ name }} substitution; every other character "
-        "unchanged; tag text stripped and whitespace runs collapsed); any exception is a violation. Non-trivial = "
+        "gettext.NullTranslations.ngettext; one-pass %(name)s / {{ name }} substitution with the values verbatim; "
+        "every other character unchanged (in filter messages %% may also come out as %); tag text stripped and whitespace runs collapsed); any exception is a violation. Non-trivial = "
         "the selected text contains a % or a placeholder or (tag) whitespace to collapse, or a plural text and a "
         "count are given and the two forms format differently."
     )
     assumptions = [
-        "variable values are the str 'V%(w)s' and the int 7; names are v and w; other values/names behave alike",
+        "variable values are the str 'V%(w)s%%' and the int 7; names are v and w; other values/names behave alike",
         "the other half of a singular/plural pair ranges over a fixed 2-element set, not over all messages",
-        "the %% digraph in filter messages is excluded (printf unescaping vs. 'unchanged' is not settled)",
+        "the %% digraph in filter messages is two-valued: '%%' (unchanged) and '%' (printf) are both accepted, "
+        "consistently per message; a %(name)s after an even run of % may be text (printf pairing) or substituted",
         "a message variable holding markup under autoescape is excluded (C05 vs C26 conflict)",
         "for whitespace runs without a newline in a tag body both 'collapsed' and 'kept' are accepted",
         "thorough tier: 4-token messages get a reduced matrix (see bounds)",
